@@ -96,10 +96,12 @@ type Rsoa struct {
 	ns  []byte // the primary name server
 	adm []byte // the contact address (with the first . converted to @)
 	ser uint32 // the serial number	(default: mtime of data file)
-	ref uint32 // the refresh time (default: 16384)
-	ret uint32 // the retry time (default: 2048)
-	exp uint32 // the expire time (default: 1048576)
-	min uint32 // the minimum time (default: 2560)
+	// serExplicit is set when the serial was given in the text, so that an explicit 0 survives MarshalText
+	serExplicit bool
+	ref         uint32 // the refresh time (default: 16384)
+	ret         uint32 // the retry time (default: 2048)
+	exp         uint32 // the expire time (default: 1048576)
+	min         uint32 // the minimum time (default: 2560)
 }
 
 // Rdot is [composite]  . → (NS, A, SOA)
@@ -764,6 +766,9 @@ func (r *Rsoa) UnmarshalText(text []byte) error {
 	r.dom, _ = quote.Bunquote(f[0]) // BUG: handle error
 	r.ns, _ = quote.Bunquote(f[1])  // BUG: handle error
 	r.adm, _ = quote.Bunquote(f[2]) // BUG: handle error
+	if _, err := strconv.ParseUint(string(f[3]), 10, 32); err == nil {
+		r.serExplicit = true
+	}
 	getuint32(f[3], &r.ser)
 	getuint32(f[4], &r.ref)
 	getuint32(f[5], &r.ret)
